@@ -131,8 +131,10 @@ func (e *Eval) Prepare(flags ...[]byte) error {
 
 	//
 	// Each preparation starts afresh: whatever an earlier call of
-	// Prepare compiled is replaced, not added to.
+	// Prepare compiled is replaced, not added to - and if this call
+	// fails there is no program to run or to dump.
 	//
+	e.machine = nil
 	e.instructions = nil
 	e.constants = nil
 	e.functions = make(map[string]environment.UserFunction)
@@ -250,6 +252,11 @@ func (e *Eval) dumper(offset int, opCode code.Opcode, opArg interface{}) (bool, 
 // Dump causes our bytecode to be dumped, along with the contents
 // of the constant-pool
 func (e *Eval) Dump() error {
+
+	// Nothing to show unless Prepare has succeeded.
+	if e.machine == nil {
+		return fmt.Errorf("the script has not been prepared")
+	}
 
 	fmt.Printf("Bytecode:\n")
 
